@@ -6,6 +6,7 @@ Anything that does not parse prints `e BadOp` — the driver never defaults.
 import LnnVerif.Model.PropEngine
 import LnnVerif.Model.Fol
 import LnnVerif.Model.Store
+import LnnVerif.Model.Dual
 import Mathlib.Algebra.Order.Field.Rat
 
 open LNN
@@ -311,6 +312,36 @@ def step (c : Ctx) (line : String) : Ctx × String :=
   | ["fresetb"] =>
     let s := c.fstate
     (c.setFState ⟨s.tabs.map fun p => (p.1, p.2.resetBounds)⟩, "ok")
+  | ["vclamp", x] =>
+    match parseRat x with
+    | some x => let d := Dual.valClamp (⟨x, 1⟩ : Dual Q); (c, s!"g {showRat d.val} {showRat d.tan}")
+    | none => bad
+  | ["grad", kind, b, ws, xs] =>
+    -- value of the upward activation on point inputs and its gradient w.r.t. bias, every weight, every input
+    match parseRat b, (ws.splitOn ",").mapM parseRat, (xs.splitOn ",").mapM parseRat with
+    | some b, some ws, some xs =>
+      let n := ws.length
+      let eval := fun (db : Q) (dw dx : Nat → Q) =>
+        let bd : Dual Q := ⟨b, db⟩
+        let wd := (List.zip (List.range n) ws).map fun p => (⟨p.2, dw p.1⟩ : Dual Q)
+        let xd := (List.zip (List.range n) xs).map fun p => (⟨p.2, dx p.1⟩ : Dual Q)
+        match kind with
+        | "and" => some (Dual.andUpD bd wd xd)
+        | "or" => some (Dual.orUpD bd wd xd)
+        | "implies" =>
+          match wd, xd with
+          | [w0, w1], [x, y] => some (Dual.impUpD bd w0 w1 x y)
+          | _, _ => none
+        | _ => none
+      let zero := fun (_ : Nat) => (0 : Q)
+      let unit := fun (k : Nat) (j : Nat) => if j = k then (1 : Q) else 0
+      match eval 1 zero zero with
+      | none => bad
+      | some d0 =>
+        let dws := (List.range n).map fun k => ((eval 0 (unit k) zero).map (·.tan)).getD 0
+        let dxs := (List.range n).map fun k => ((eval 0 zero (unit k)).map (·.tan)).getD 0
+        (c, s!"g {showRat d0.val} {showRat d0.tan} {",".intercalate (dws.map showRat)} {",".intercalate (dxs.map showRat)}")
+    | _, _, _ => bad
   | ["state", a, l, u] =>
     match parseRat a, parseRat l, parseRat u with
     | some a, some l, some u =>
